@@ -57,7 +57,12 @@ def to_wire(obj: Any) -> Any:
 
 
 def outcome_of(exc: Optional[BaseException]) -> str:
-    return "refuse:" + err_kind(exc) if exc is not None else "reuse"
+    if exc is None:
+        return "reuse"
+    kind = err_kind(exc)
+    if kind.startswith("value-error:"):      # subclasses (IncompatibleComponentError, …) are ValueErrors
+        kind = "value-error"
+    return "refuse:" + kind
 
 
 @contextlib.contextmanager
@@ -156,6 +161,7 @@ def gen_domain_string(rng: random.Random) -> List[str]:
 
 class C11(Property):
     ID = "C11"
+    USES_TABLES = True     # the driver re-adds module components with C14's model over the regenerated tables
     SHAPE = [
         ("antismash/common/hmmscan_refinement.py", "HMMResult.__init__"),
         ("antismash/common/hmmscan_refinement.py", "HMMResult.add_internal_hits"),
@@ -250,9 +256,9 @@ class C11(Property):
             "regeneration attempted; distinct by canonical case")
     TRUSTED = [
         "orjson (dict order preserved, shortest round-trip float text); Python float <-> exact decimal of its repr",
-        "Module.from_json re-adds components through add_component: modelled as the abstract predicate "
-        "`ModRules.accepts` (property C14 owns it); the driver instantiates it with `accepts = true` and the "
-        "correspondence runs the real re-adding on modules built by the real build_modules_for_cds/combine_modules",
+        "Module.from_json re-adds components through add_component: `ModRules.accepts`, instantiated in the driver "
+        "and in the `…_built/_combined/_generated` theorems with C14's model (`c14Rules`, regenerated tables); "
+        "patched module JSON (extra starter, duplicate loader, reversed components) checks the refusals",
         "text forms inside qualifiers / TTA codons: str(location)/location_from_string is proved (C04.string_roundtrip) "
         "for exact positions; fuzzy positions (<5, >9) are not generated",
         "JSON values of an unexpected type, NaN/inf scores, extra qualifiers on protoclusters, T2PKS qualifiers and "
@@ -312,7 +318,8 @@ class C11(Property):
         mut = None
         if rng.random() < self.MUT_RATE:
             mut = rng.choice(["schema:3", "schema:5", "schema:none", "schema:missing", "record_id", "unknown_cds",
-                              "drop_first_in_cds", "displace_kid", "unknown_profile", "schema:str"])
+                              "drop_first_in_cds", "displace_kid", "unknown_profile", "schema:str",
+                              "second_starter", "duplicate_loader", "swap_components", "empty_locus"])
         return {"kind": "nrpspks", "record_id": rng.choice(["rec1", "NC_003888.3", "r"]), "genes": genes, "mut": mut}
 
     def gen_hmmdet(self, rng: random.Random) -> Dict[str, Any]:
@@ -722,8 +729,6 @@ class C11(Property):
             applied = self.mutate_nrps(j_in, mut)
             if mut == "record_id":
                 cur_record_id = case["record_id"] + "_other"
-        names = sorted(n for group in mi.CLASSIFICATIONS.values() for n in group)
-        self._classifiable = names
         obs: Dict[str, Any] = {"json_in": to_wire(j_in), "mutated": bool(mut) and applied,
                                "ctx": {"record_id": cur_record_id, "cds_names": [g["name"] for g in case["genes"]]},
                                "n_modules": sum(len(r.modules) for r in x.cds_results.values()),
@@ -776,6 +781,23 @@ class C11(Property):
             if mut == "unknown_profile":
                 for mod in res["modules"]:
                     mod["components"][0]["domain"]["hit_id"] = "NoSuchProfile"
+                    return True
+            if mut == "empty_locus":
+                for mod in res["modules"]:
+                    mod["components"][-1]["locus"] = ""
+                    return True
+            if mut in ("second_starter", "duplicate_loader", "swap_components"):
+                # stored modules that may no longer be acceptable to add_component
+                for mod in res["modules"]:
+                    comps = mod["components"]
+                    if mut == "second_starter":
+                        comps.append({"domain": {"hit_id": "PKS_KS", "query_start": 990, "query_end": 999,
+                                                 "evalue": 1e-9, "bitscore": 30.5}, "locus": comps[-1]["locus"]})
+                    elif mut == "duplicate_loader":
+                        comps.append({"domain": {"hit_id": "AMP-binding", "query_start": 990, "query_end": 999,
+                                                 "evalue": 1e-9, "bitscore": 30.5}, "locus": comps[-1]["locus"]})
+                    else:
+                        comps.reverse()
                     return True
             if mut == "displace_kid":
                 for hit in res["domain_hmms"]:
@@ -1247,9 +1269,7 @@ class C11(Property):
             return {"kind": kind, "has_prev": case["has_prev"], "regen": regen, "in_all": case["in_all"],
                     "enabled": case["enabled"]}
         line: Dict[str, Any] = {"kind": kind, "json": obs["json_in"], "ctx": obs.get("ctx", {})}
-        if kind == "nrpspks":
-            line["classifiable"] = self._classifiable
-        elif kind == "hmmdet":
+        if kind == "hmmdet":
             line["opts"] = obs["opts"]
         elif kind == "hmmer":
             line.update({"max_evalue": obs["max_evalue"], "min_score": obs["min_score"], "op": case["op"]})
